@@ -109,6 +109,23 @@ func c04RawFamilies(dir string) []c04Case {
 			}
 		}
 	}
+	// zero-column reads (COUNT(*), constants, a join branch nobody reads from) over files whose physical line
+	// structure differs from their record structure: a shortcut that counts lines instead of decoding records
+	// would only show up here
+	tricky := map[string]string{
+		"ml.csv":   "id,note\n1,\"two\nlines\"\n2,\"a \"\"quoted\"\" word, and a comma\"\n3,\n\n4,\"three\n\nlines\"\n",
+		"ml.tsv":   "id\tnote\n1\t\"two\nlines\"\n2\tplain\n",
+		"crlf.csv": "id,note\r\n1,a\r\n2,\"b\r\nc\"\r\n",
+		"nl.json":  "{\"id\":1,\"note\":\"two\\nlines\"}\n\n{\"id\":2,\"note\":\"x\"}\n",
+		"t.lines":  "a\n\nb\nc",
+	}
+	for name, content := range tricky {
+		f := w(name, content)
+		add("datasource-fields/zero-columns", fmt.Sprintf("SELECT COUNT(*) AS c FROM %s t", f))
+		add("datasource-fields/zero-columns", fmt.Sprintf("SELECT 1 AS one FROM %s t", f))
+		add("datasource-fields/zero-columns", fmt.Sprintf("SELECT w.a FROM %s w JOIN %s t ON TRUE", wide, f))
+		add("datasource-fields/zero-columns", fmt.Sprintf("SELECT COUNT(*) AS c FROM (SELECT * FROM %s t) s", f))
+	}
 	for _, c := range []string{"k", "m", "l", "s", "ts"} {
 		add("datasource-fields", fmt.Sprintf("SELECT t.%s FROM %s t", c, u))
 		add("datasource-fields", fmt.Sprintf("SELECT t.%s, t.k FROM %s t WHERE t.s = 'a'", c, u))
